@@ -39,6 +39,9 @@ class Plane:
 
         if not vg.almost_unit_length(normal, atol=0.1**direction_decimals):
             raise ValueError("normal should have unit length")
+        # Remembered so that planes derived from this one, e.g. by `flipped()`,
+        # are validated to the same precision as this one was.
+        self._direction_decimals = direction_decimals
 
         self.reference_point = np.copy(reference_point)
         self.reference_point.setflags(write=False)
@@ -260,7 +263,11 @@ class Plane:
         """
         Creates a new Plane with an inverted orientation.
         """
-        return Plane(reference_point=self.reference_point, normal=-self.normal)
+        return Plane(
+            reference_point=self.reference_point,
+            normal=-self.normal,
+            direction_decimals=self._direction_decimals,
+        )
 
     def flipped_if(self, condition):
         """
